@@ -178,6 +178,8 @@ type replayC39 struct {
 	Seed  string `json:"seed"`
 	Msg   string `json:"msg,omitempty"`
 	Note  string `json:"note,omitempty"`
+	Long  int    `json:"long,omitempty"` // long-history case: number of distinct accepted signatures
+	Tag   uint64 `json:"tag,omitempty"`
 }
 
 func renderOpt(b []byte, err error) string {
@@ -371,6 +373,9 @@ func buildHistory(r *vh.Rng, depth int, seed []byte, observed map[int]bool) *his
 				spkp := uint64(1 + r.Intn(200000))
 				slot := (kp+l.period)*spkp + uint64(r.Intn(int(spkp)))
 				h.opComponents(l.msg, l.sig, pk, kp, slot, spkp, "genuine")
+				h.opComponents([]byte{}, l.sig, pk, kp, slot, spkp, "empty body after the genuine one was accepted")
+				h.opComponents(append(append([]byte(nil), l.msg...), 1), l.sig, pk, kp, slot, spkp, "longer body after the genuine one was accepted")
+				h.opComponents(l.msg, l.sig, pk, kp, slot, spkp, "genuine again")
 				h.opComponents(l.msg, l.sig, pk, kp, slot+spkp, spkp, "one period later")
 				if t == 0 {
 					h.opComponents(l.msg, l.sig, pk, kp+1, slot, spkp, "certificate starts in the future")
@@ -592,7 +597,11 @@ func (m *mon) checkSig(depth int, tree *refTree, t int, msg, sig, rootPk []byte,
 		got := verifyAtDepth(depth, pk, p, mm, s)
 		if depth == 6 {
 			if got2 := kes.VerifySignedKES(pk, p, mm, s); got2 != got {
-				m.bad("verifysignedkes-differs", "VerifySignedKES disagrees with NewSumKesFromBytes(6).Verify", note(""))
+				key := "verifysignedkes-rejects-what-verify-accepts"
+				if got2 {
+					key = "verifysignedkes-accepts-what-verify-rejects"
+				}
+				m.bad(key, fmt.Sprintf("VerifySignedKES(period=%d) = %v, NewSumKesFromBytes(6).Verify = %v (same process, after earlier verifications)", p, got2, got), note(""))
 			}
 		}
 		if want := refVerify(depth, pk, p, mm, s); want != got {
@@ -608,6 +617,7 @@ func (m *mon) checkSig(depth int, tree *refTree, t int, msg, sig, rootPk []byte,
 		m.bad("genuine-rejected", fmt.Sprintf("genuine signature of period %d rejected", t), note(""))
 	}
 	m.c.Res.Evaluations++
+	m.afterAccepted(depth, t, msg, sig, rootPk, note)
 	// every other period (and a few beyond the range)
 	for u := 0; u <= max+2; u++ {
 		if u != t && ver(rootPk, uint64(u), msg, sig) {
@@ -679,6 +689,60 @@ func (m *mon) checkSig(depth int, tree *refTree, t int, msg, sig, rootPk []byte,
 	}
 }
 
+// afterAccepted: a verification that succeeded must not make later, different
+// questions about the same signature succeed (verdicts are stateless)
+func (m *mon) afterAccepted(depth, t int, msg, sig, rootPk []byte, note func(string) replayC39) {
+	type variant struct {
+		what   string
+		pk     []byte
+		period uint64
+		msg    []byte
+	}
+	longer := append(append([]byte(nil), msg...), 0x55)
+	vs := []variant{
+		{"other-message-longer", rootPk, uint64(t), longer},
+		{"other-period-next", rootPk, uint64(t) + 1, msg},
+		{"other-key", flipBit(rootPk, (t*13)%256), uint64(t), msg},
+	}
+	if len(msg) > 0 {
+		vs = append(vs, variant{"other-message-empty", rootPk, uint64(t), []byte{}},
+			variant{"other-message-bit-flipped", rootPk, uint64(t), flipBit(msg, (t*7)%(len(msg)*8))},
+			variant{"other-message-truncated", rootPk, uint64(t), msg[:len(msg)-1]})
+	} else {
+		vs = append(vs, variant{"other-message-nonempty", rootPk, uint64(t), []byte{0}})
+	}
+	if t > 0 {
+		vs = append(vs, variant{"other-period-previous", rootPk, uint64(t) - 1, msg})
+	}
+	for round := 0; round < 2; round++ { // the second round re-asks after the genuine one was accepted twice
+		entries := map[string]func(v variant) bool{
+			"Verify": func(v variant) bool { return verifyAtDepth(depth, v.pk, v.period, v.msg, sig) },
+		}
+		if depth == 6 {
+			entries["VerifySignedKES"] = func(v variant) bool { return kes.VerifySignedKES(v.pk, v.period, v.msg, sig) }
+			entries["VerifyKesComponents"] = func(v variant) bool {
+				ok, _ := ledger.VerifyKesComponents(v.msg, sig, v.pk, 3, (3+v.period)*100+7, 100)
+				return ok
+			}
+		}
+		for _, name := range []string{"Verify", "VerifySignedKES", "VerifyKesComponents"} {
+			f, ok := entries[name]
+			if !ok {
+				continue
+			}
+			if !f(variant{"genuine", rootPk, uint64(t), msg}) {
+				m.bad("genuine-rejected-"+name, fmt.Sprintf("%s rejects the genuine signature of period %d", name, t), note(""))
+				continue
+			}
+			for _, v := range vs {
+				if f(v) {
+					m.bad("accepted-after-genuine-"+v.what, fmt.Sprintf("%s: after the genuine (key, period %d, message, signature) was accepted, the same signature is accepted for %s", name, t, v.what), note(name))
+				}
+			}
+		}
+	}
+}
+
 func sigRegion(byteIdx int) string {
 	if byteIdx < 64 {
 		return "leaf"
@@ -745,6 +809,10 @@ func run(c *vh.Ctx) error {
 		if err := json.Unmarshal(b, &rp); err != nil {
 			return err
 		}
+		if rp.Replay.Long > 0 {
+			m.longHistory(rp.Replay.Long, rp.Replay.Tag)
+			return nil
+		}
 		seed := vh.UnHex(rp.Replay.Seed)
 		m.monitorSeed(rp.Replay.Depth, seed, vh.UnHex(rp.Replay.Msg), allPeriods(rp.Replay.Depth))
 		obs := allPeriods(rp.Replay.Depth)
@@ -777,6 +845,7 @@ func run(c *vh.Ctx) error {
 			m.monitorSeed(depth, seed, msg, ex)
 		}
 	}
+	m.longHistory(c.Pick(5000, 70000), uint64(c.Seed))
 	// KeyGen refuses seeds that are not 32 bytes
 	for _, n := range []int{0, 31, 33, 64} {
 		if _, _, err := kes.KeyGen(3, make([]byte, n)); err == nil {
